@@ -57,10 +57,11 @@ class LRef:
 
 
 class Opaque:
-    __slots__ = ("origin", "ty")
+    __slots__ = ("origin", "ty", "_lenvar")
 
     def __init__(self, origin, ty=None):
         self.origin, self.ty = origin, ty
+        self._lenvar = None
 
     def __repr__(self):
         return "Opaque(%s)" % (self.origin,)
@@ -336,6 +337,8 @@ class Executor:
         self.stats = {"paths": 0, "forks": 0, "solver_checks": 0, "inlined": set(), "opaque_calls": set(), "unknown": set()}
         self.fresh = 0
         self.npre = 0
+        self.check_panics = False  # C16: partial std callees (unwrap / expect / Index) fork a panic path instead of being opaque
+        self.panic_checks = []  # (site, "sat" | "unsat"): solver verdicts on "can this panic site be reached here?"
         self._by_tail = {}
         for name, fl in fns.items():
             tail = name.split("::")[-1] if "{closure" not in name.split("::")[-1] else name
@@ -832,6 +835,11 @@ class Executor:
             if isinstance(state.mem.get(v.path), VecL):
                 return len(state.mem[v.path].items)
             return self.ivar("len(%s)" % pstr(v.path), 0, self.slice_bound)
+        # a value the executor does not look into: its length is unknown but it is *one* length (asking twice must give the same answer)
+        if isinstance(v, Opaque):
+            if getattr(v, "_lenvar", None) is None:
+                v._lenvar = self.ivar(self.fresh_name("len-opaque"), 0, self.slice_bound)
+            return v._lenvar
         return self.ivar(self.fresh_name("len-opaque"), 0, self.slice_bound)
 
     # ---- summaries for events -----------------------------------------------------------------
@@ -880,6 +888,8 @@ class Executor:
         if m and re.search(r"as (?:std::ops::|core::ops::)?Fn(?:Mut|Once)?<", c):
             return ("closure-call", m.group(0))
         norm = normalize_callee(c)
+        if norm in PANIC_ONLY_MODELS and not self.check_panics:
+            return ("opaque", norm)
         if norm in MODELS:
             return ("model", norm)
         if re.match(r"^Iterator::\w+::next$", norm):
@@ -1020,7 +1030,9 @@ class Executor:
                 if c is not None and not isinstance(c, bool):
                     ok = z3.Not(c) if term[1] else c
                     bad = c if term[1] else z3.Not(c)
-                    if self.feasible(state, bad):
+                    bad_feasible = self.feasible(state, bad)
+                    self.panic_checks.append(("assert in " + self.qual.get(frame.fn.name, frame.fn.name), "sat" if bad_feasible else "unsat"))
+                    if bad_feasible:
                         s2 = state.clone()
                         s2.pc.append(bad)
                         self.finish(s2, "panic", "assertion failed in " + self.qual.get(frame.fn.name, frame.fn.name))
@@ -1118,7 +1130,7 @@ class Executor:
             state.events.append((short, [self.summ(state, a) for a in args]))
         if ret_block is None:
             # diverging call (panic / unreachable!/ unwrap failed ...)
-            self.finish(state, "panic", normalize_callee(callee))
+            self.finish(state, "panic", normalize_callee(callee) + " in " + self.qual.get(frame.fn.name, frame.fn.name))
             return "done"
         if kind == "local" and short not in self.opaque_local and len(state.frames) < MAX_DEPTH:
             self.stats["inlined"].add(short)
@@ -2051,10 +2063,86 @@ def _collect_result(ex, state, frame, dest, fm, ret_block, work):
     return "done"
 
 
-@model("Index::Vec::index")
+PANIC_ONLY_MODELS = {"Option::unwrap", "Option::expect", "Result::unwrap", "Result::expect", "Index::Punctuated::index"}
+
+
+def _panic_fork(ex, state, frame, cond_bad, what):
+    """the callee panics iff cond_bad (python bool or z3 bool). Records the solver's verdict, finishes the panic path if it is feasible and
+    constrains the state to the surviving side; -> False if nothing survives"""
+    site = "%s in %s" % (what, ex.qual.get(frame.fn.name, frame.fn.name))
+    if isinstance(cond_bad, bool):
+        if cond_bad:
+            ex.panic_checks.append((site, "sat"))
+            ex.finish(state, "panic", site)
+            return False
+        return True
+    bad_feasible = ex.feasible(state, cond_bad)
+    ex.panic_checks.append((site, "sat" if bad_feasible else "unsat"))
+    if bad_feasible:
+        s2 = state.clone()
+        s2.pc.append(cond_bad)
+        ex.finish(s2, "panic", site)
+    ok = z3.Not(cond_bad)
+    if not ex.feasible(state, ok):
+        return False
+    state.pc.append(ok)
+    return True
+
+
+@model("Option::unwrap", "Option::expect")
+def m_option_unwrap(ex, state, frame, dest, args, ret_block, work, callee):
+    v = _val(ex, state, args[0])
+    if isinstance(v, Agg) and v.kind == "adt" and v.name == "Option":
+        if v.variant != "Some":
+            ex.panic_checks.append(("%s on None in %s" % (normalize_callee(callee), ex.qual.get(frame.fn.name, frame.fn.name)), "sat"))
+            ex.finish(state, "panic", "%s on None in %s" % (normalize_callee(callee), ex.qual.get(frame.fn.name, frame.fn.name)))
+            return "done"
+        return _ret(ex, state, frame, dest, v.fields[0], ret_block)
+    ity = inner_ty(v.ty) if isinstance(v, (Sym, Opaque)) else None
+    if isinstance(v, Sym):
+        v = Sym(v.path, "Option<?>")
+    elif isinstance(v, Opaque):
+        v = Opaque(v.origin, "Option<?>")
+    else:
+        raise Inconclusive("unwrap on %r" % (v,))
+    if not _panic_fork(ex, state, frame, _is_variant(ex, state, v, ["None", "Some"], "None"), normalize_callee(callee) + " on None"):
+        return "done"
+    inner = Sym(v.path + (("as", "Some"), 0), ity) if isinstance(v, Sym) else Opaque(("some-of", v.origin), ity)
+    return _ret(ex, state, frame, dest, inner, ret_block)
+
+
+@model("Result::unwrap", "Result::expect")
+def m_result_unwrap(ex, state, frame, dest, args, ret_block, work, callee):
+    v = _val(ex, state, args[0])
+    if isinstance(v, Agg) and v.kind == "adt" and v.name == "Result":
+        if v.variant != "Ok":
+            ex.panic_checks.append(("%s on Err in %s" % (normalize_callee(callee), ex.qual.get(frame.fn.name, frame.fn.name)), "sat"))
+            ex.finish(state, "panic", "%s on Err in %s" % (normalize_callee(callee), ex.qual.get(frame.fn.name, frame.fn.name)))
+            return "done"
+        return _ret(ex, state, frame, dest, v.fields[0] if v.fields else Agg("tuple", None, None, []), ret_block)
+    if isinstance(v, Sym):
+        v = Sym(v.path, "Result<?,?>")
+    elif isinstance(v, Opaque):
+        v = Opaque(v.origin, "Result<?,?>")
+    else:
+        raise Inconclusive("unwrap on %r" % (v,))
+    if not _panic_fork(ex, state, frame, _is_variant(ex, state, v, ["Ok", "Err"], "Err"), normalize_callee(callee) + " on Err"):
+        return "done"
+    inner = Sym(v.path + (("as", "Ok"), 0)) if isinstance(v, Sym) else Opaque(("ok-of", v.origin), None)
+    return _ret(ex, state, frame, dest, inner, ret_block)
+
+
+@model("Index::Vec::index", "Index::Punctuated::index")
 def m_index(ex, state, frame, dest, args, ret_block, work, callee):
     v = _val(ex, state, args[0])
     i = args[1]
+    if ex.check_panics:
+        if not isinstance(i, int):
+            raise Inconclusive("index with a symbolic position in %s" % frame.fn.name)
+        n = ex.length(state, args[0])
+        bad = (i >= n) if isinstance(n, int) else (n <= i)
+        if not _panic_fork(ex, state, frame, bad, "%s[%d] out of bounds" % (normalize_callee(callee), i)):
+            return "done"
     if isinstance(v, VecL) and isinstance(i, int) and i < len(v.items):
         return _ret(ex, state, frame, dest, v.items[i], ret_block)
     if isinstance(v, Sym) and isinstance(i, int):
